@@ -19,6 +19,8 @@ def run(run, suspicious):
         dfn = rt.dx.from_pandas(pdf.assign(kn=pdf.k.where(pdf.k % 3 != 0).astype("float64")), npartitions=npart)
         sm1 = rt.dx.from_pandas(small, npartitions=1)
         sm3 = rt.dx.from_pandas(small, npartitions=min(3, npart))
+        # (the index must not coincide with the key: a frame partitioned by its index instead of its key would go unnoticed)
+        sm3r = rt.dx.from_pandas(small.rename(columns={"k": "id"}).set_axis([(7 * i + 3) % 9 + 20 for i in range(len(small))], axis=0), npartitions=min(3, npart), sort=False)
         queries = {
             # name: (baseline thunk, {variant name: thunk}, ordered, labels)
             "sum": (lambda: df[["x", "y"]].sum(), {"split_every=%s" % s: (lambda s=s: df[["x", "y"]].sum(split_every=s)) for s in (False, 2, 3, 8)}, True, True),
@@ -66,6 +68,14 @@ def run(run, suspicious):
             "merge-right": (lambda: sm3.merge(df, on="k", how="right"), dict(
                 [("broadcast=%s" % b, (lambda b=b: sm3.merge(df, on="k", how="right", broadcast=b, shuffle_method="tasks"))) for b in (True, False)] +
                 [("broadcast=True,npartitions=%s" % p, (lambda p=p: sm3.merge(df, on="k", how="right", broadcast=True, npartitions=p, shuffle_method="tasks"))) for p in (1, 2)]), False, False),
+            # differently named keys on the two sides
+            "merge-left-different-key-names": (lambda: df.merge(sm3r, left_on="k", right_on="id", how="left"), dict(
+                [("broadcast=%s,method=%s" % (b, m), (lambda b=b, m=m: df.merge(sm3r, left_on="k", right_on="id", how="left", broadcast=b, shuffle_method=m))) for b in (None, True, False, 0.9) for m in ("tasks", "disk")] +
+                [("broadcast=True,npartitions=%s" % p, (lambda p=p: df.merge(sm3r, left_on="k", right_on="id", how="left", broadcast=True, npartitions=p, shuffle_method="tasks"))) for p in (1, 2, 5)]), False, False),
+            "merge-right-different-key-names": (lambda: sm3r.merge(df, left_on="id", right_on="k", how="right"), dict(
+                [("broadcast=%s" % b, (lambda b=b: sm3r.merge(df, left_on="id", right_on="k", how="right", broadcast=b, shuffle_method="tasks"))) for b in (None, True, False)]), False, False),
+            "merge-inner-different-key-names": (lambda: df.merge(sm3r, left_on="k", right_on="id"), dict(
+                [("broadcast=%s" % b, (lambda b=b: df.merge(sm3r, left_on="k", right_on="id", broadcast=b, shuffle_method="tasks"))) for b in (None, True, False)]), False, False),
             "merge-leftsemi": (lambda: df.merge(sm3[["k"]], on="k", how="leftsemi"), dict(
                 [("broadcast=%s,method=%s" % (b, m), (lambda b=b, m=m: df.merge(sm3[["k"]], on="k", how="leftsemi", broadcast=b, shuffle_method=m))) for b in (None, True, False) for m in ("tasks", "disk")]), False, False),
             "merge-leftsemi-small-left": (lambda: sm3.merge(df[["k"]], on="k", how="leftsemi"), dict(
